@@ -72,7 +72,7 @@ def chain_reference(entries, shape, i, q):
         p2, v2 = ref_get(entries[j], val); pres = z3.And(pres, p2); val = v2
     return leader, pres, val
 
-def unit(tier):
+def unit(tier, prop='C13'):
     t0 = time.time()
     S_ = Session((), True); R = S_.resolver; R.tymap.clear(); R.tymap.update({'L': 'Lf', 'N': '()'})
     ex = S_.executor()
@@ -131,7 +131,7 @@ def unit(tier):
         if nat is None or not nat['differs']:
             inconclusive.append('union-find step "%s" violates "%s" symbolically but the native replay agrees with the reference: %s' % (name, label, json.dumps(nat)[:300])); continue
         validated += 1
-        path = common.write_replay('C13', key, {'property': 'C13', 'level': 'unit', 'shape': name, 'obligation': label, 'native': nat})
+        path = common.write_replay(prop, key, {'property': prop, 'level': 'unit', 'shape': name, 'obligation': label, 'native': nat})
         violations.append((key, path, 'union-find step "%s" violates "%s"; native: %s' % (name, label, json.dumps(nat)[:300])))
     return {'samples': samples, 'violations': violations, 'inconclusive': inconclusive, 'states': paths, 'transitions': ex.n_branches, 'validated': validated,
             'functions_encoded': sorted(short_fn(f) for f in ex.inlined), 'library_models': sorted(ex.modelled), 'solver_time_s': round(ex.t_solver, 2), 'wall_s': time.time() - t0,
